@@ -265,7 +265,13 @@ func (l *Line) Expand(serial uint32) []RR {
 // escapes (the documented tinydns escape).
 func qfield(b []byte) string {
 	var sb strings.Builder
-	for _, c := range b {
+	for i, c := range b {
+		// blanks are data like any other byte; every other one is written raw
+		// (also at the end of a field), the rest escaped
+		if c == ' ' && i%2 == 1 {
+			sb.WriteByte(c)
+			continue
+		}
 		if c > 0x20 && c < 0x7f && c != '\\' && c != ',' && c != ':' {
 			sb.WriteByte(c)
 		} else {
